@@ -57,7 +57,8 @@ op = st.sampled_from(['+', '-', '=', '<', '>', '\\le ', '\\cdot ', '\\times ', '
 body = st.tuples(expr, st.lists(st.tuples(op, expr), max_size=3)).map(lambda t: t[0] + ''.join(o + e for o, e in t[1]))
 formula = st.tuples(st.sampled_from(['$', '\\(']),
                     st.one_of(st.just(''), st.just(''), st.sampled_from(MSP)),
-                    st.one_of(body, body, body, st.sampled_from(['=', '\\le', '+', '.', '\\to'])),
+                    st.one_of(body, body, body, st.sampled_from(['=', '\\le', '+', '.', '\\to']),
+                              body.map(lambda b: b + ', \\dots'), body.map(lambda b: b + '+\\ldots'), body.map(lambda b: b + ' \\cdots')),
                     st.sampled_from(['', '', '.', ',', ';', ':']),
                     st.sampled_from(['', '', '', '\\,', '\\quad ', '~', ' \\label{kk}', '\\nonumber', ' %c\n', '\\ ', '\n']))
 CTX = ['text', 'text', 'head', 'arg', 'colorarg', 'foot', 'item', 'cell', 'foreign-ru', 'foreign-de', 'other-ru', 'other-de', 'foreign-fr', 'foreign-en']
